@@ -43,6 +43,25 @@ def reseed_global_rng():
     np.random.seed(_RESEED[0])
 
 
+PRES = ["py", "int64", "int32", "intp", "py"]
+
+
+def present(v, pres):
+    """the same integer value as another type a caller may legitimately pass (numpy scalars are
+    numbers.Integral but not `int`); lists element-wise; everything else unchanged."""
+    if not pres or pres == "py" or isinstance(v, bool):
+        return v
+    if isinstance(v, int):
+        return getattr(np, pres)(v)
+    if isinstance(v, list) and v and all(isinstance(i, int) and not isinstance(i, bool) for i in v):
+        return [getattr(np, pres)(i) for i in v]
+    return v
+
+
+def present_flag(b, pres):
+    return np.bool_(b) if pres and pres != "py" else bool(b)
+
+
 def in_form(A, form):
     """the same data as another object: what a caller may legitimately pass at a later fit."""
     if A is None or form == "same":
@@ -79,9 +98,9 @@ def gen_session(rng, data, ncand, nr_max):
         return e
 
     def init_failure():
-        modes = ["str", "float", "oor_int"]
+        modes = ["str", "float", "oor_int", "below_int"]
         if kind == "fps":
-            modes += ["floatlist", "list_oor", "list_oor", "list_long", "list_long"]
+            modes += ["floatlist", "list_oor", "list_oor", "list_long", "list_long", "list_below", "list_below"]
         m = rng.choice(modes)
         k = rng.randint(2, nr_max)
         if m == "str":
@@ -90,6 +109,14 @@ def gen_session(rng, data, ncand, nr_max):
             init = 1.5
         elif m == "oor_int":
             init = ncand + rng.randint(0, 3)
+        elif m == "below_int":
+            init = -ncand - rng.randint(1, 3)
+        elif m == "list_below":
+            # valid entries (possibly legal negative ones), then one below -n
+            good = rng.sample(range(ncand), rng.randint(1, min(3, k - 1) if k > 1 else 1))
+            good = [g - ncand if rng.random() < 0.3 else g for g in good]
+            init = good + [-ncand - rng.randint(1, 3)]
+            k = max(k, len(init))
         elif m == "floatlist":
             init = [rng.randrange(ncand), 2.5]
         elif m == "list_oor":
@@ -145,8 +172,12 @@ def gen_session(rng, data, ncand, nr_max):
             if fam:
                 if kind == "fps" and rng.random() < 0.3:
                     good_init = rng.sample(range(ncand), rng.randint(1, 2))
+                    # legal negative entries address item n + i
+                    good_init = [g - ncand if rng.random() < 0.35 else g for g in good_init]
                 else:
                     good_init = rng.randrange(ncand)
+                    if rng.random() < 0.3:
+                        good_init -= ncand
             ninit = len(good_init) if isinstance(good_init, list) else (1 if fam else 0)
             k = rng.randint(max(1, ninit), nr_max)
             ev.append(dict(op="fit", warm=False, nts=k, full=False, thr=None, init=good_init, extra={}, mode="ok"))
@@ -191,6 +222,7 @@ def gen_session(rng, data, ncand, nr_max):
     for e in ev:
         if e["op"] == "fit":
             e["form"] = rng.choice(FORMS)       # the (equal) data is handed over as another object
+            e["pres"] = rng.choice(PRES)        # integers / flags handed over as numpy scalars
     return ev
 
 
@@ -234,12 +266,13 @@ def run_session(data, events):
                 setattr(sel, k_, v_)
             out.append(dict(op="set"))
             continue
-        params = dict(n_to_select=e["nts"], full=e["full"],
+        pres = e.get("pres")
+        params = dict(n_to_select=present(e["nts"], pres), full=e["full"],
                       score_threshold=None if e["thr"] is None else e["thr"][0] / e["thr"][1],
                       score_threshold_type="absolute")
         if kind in FPS_FAMILY and not e["warm"]:
-            params["initialize"] = e["init"]
-        params.update(e.get("extra", {}))
+            params["initialize"] = present(e["init"], pres)
+        params.update({k_: present(v_, pres) for k_, v_ in e.get("extra", {}).items()})
         for k_, v_ in params.items():
             setattr(sel, k_, v_)      # what BaseEstimator.set_params does (VoronoiFPS hides them in **kwargs)
         ncalls = len(rec.calls)
@@ -250,9 +283,9 @@ def run_session(data, events):
             reseed_global_rng()
             try:
                 if Y is None:
-                    sel.fit(Xs, warm_start=e["warm"])
+                    sel.fit(Xs, warm_start=present_flag(e["warm"], pres))
                 else:
-                    sel.fit(Xs, Ys, warm_start=e["warm"])
+                    sel.fit(Xs, Ys, warm_start=present_flag(e["warm"], pres))
                 r["stopped"] = any("Score threshold" in str(x.message) for x in w)
             except Exception as ex:  # noqa
                 r["error"] = S.err_class(ex)
@@ -261,6 +294,15 @@ def run_session(data, events):
         if "error" not in r:
             r["obs"] = c01.observe(sel, X, axis)
             r["snap"] = snapshot(sel, kind, axis, rec.calls[ncalls:])
+            if any(i < 0 for i in r["obs"]["sel"]):
+                # a legal negative `initialize` entry is stored as given: reduce the reported indices
+                # modulo the number of items before comparing (the model holds n + i)
+                nc = X.shape[axis]
+                r["negative_indices_reported"] = True
+                r["obs"]["sel"] = [i % nc for i in r["obs"]["sel"]]
+                r["obs"]["ordered"] = [i % nc for i in r["obs"]["ordered"]]
+                r["obs"]["sorted"] = sorted(i % nc for i in r["obs"]["sorted"])
+                r["snap"]["sel"] = [i % nc for i in r["snap"]["sel"]]
         r["stream"] = [code(v) for v in rec.calls[ncalls:]]
         r["n_selected_after"] = int(getattr(sel, "n_selected_", -1))
         out.append(r)
@@ -331,7 +373,7 @@ def session_oracle(data, events, recs, final_tables, tables_equal):
                     out.append(("call %d: fit(warm_start=True) was ACCEPTED on a selector that is not fitted (no call of "
                                 "fit has returned since it was created / since its last cold fit raised); it now "
                                 "reports selected_idx_=%s" % (ei, r["obs"]["sel"]),
-                                KEY_F33 if partial_before else None))
+                                None))      # F33 is repaired in /repo: no known-finding key any more
                 elif shrink:
                     out.append(("call %d: fit(warm_start=True) with n_to_select=%r, which resolves to %d < n_selected_=%d, "
                                 "returned normally (selected_idx_=%s) instead of being rejected"
@@ -358,6 +400,10 @@ def session_oracle(data, events, recs, final_tables, tables_equal):
         k = S.resolve_niter(ncand, nts)
         if not e["warm"]:
             last_cold = e["init"]
+            if isinstance(last_cold, int) and not isinstance(last_cold, bool):
+                last_cold = last_cold % ncand
+            elif isinstance(last_cold, list):
+                last_cold = [i % ncand for i in last_cold]
         fitted = k
         # history independence: what a fresh selector's single cold fit leaves
         try:
@@ -404,7 +450,7 @@ def forced_reference(kind, axis, X, Y, extra, prefix, n_total):
     return sel, state["real"]
 
 
-def run_switch(data, stages, forms=None):
+def run_switch(data, stages, forms=None, pres=None):
     """stages = [(recompute_every, n_to_select), ...]; first cold, others warm, set_params between."""
     kind, axis = data["kind"], data["axis"]
     X = np.array(data["X"], float)
@@ -417,7 +463,7 @@ def run_switch(data, stages, forms=None):
     with warnings.catch_warnings():
         warnings.simplefilter("ignore")
         for si, (re_, k) in enumerate(stages):
-            sel.set_params(recompute_every=re_, n_to_select=k)
+            sel.set_params(recompute_every=present(re_, pres), n_to_select=present(k, pres))
             if si > 0:
                 # the guard of _continue_greedy_search, evaluated on the public attributes before the call
                 cnt = 0
@@ -429,18 +475,18 @@ def run_switch(data, stages, forms=None):
             form = "same" if not forms else forms[si % len(forms)]
             reseed_global_rng()
             if Y is None:
-                sel.fit(in_form(X, form), warm_start=si > 0)
+                sel.fit(in_form(X, form), warm_start=present_flag(si > 0, pres))
             else:
-                sel.fit(in_form(X, form), in_form(Y, form), warm_start=si > 0)
+                sel.fit(in_form(X, form), in_form(Y, form), warm_start=present_flag(si > 0, pres))
     return sel, rec.calls, stale_counts
 
 
-def switch_compare(data, stages, forms=None):
+def switch_compare(data, stages, forms=None, pres=None):
     """returns (message or None, info)."""
     kind, axis = data["kind"], data["axis"]
     X = np.array(data["X"], float)
     Y = None if data["y"] is None else np.array(data["y"], float)
-    sel, calls, stale = run_switch(data, stages, forms)
+    sel, calls, stale = run_switch(data, stages, forms, pres)
     chain_sel = [int(i) for i in sel.selected_idx_]
     n_pre = stages[-2][1]
     re_last, n_total = stages[-1]
